@@ -113,6 +113,9 @@ TrTmoSet ==
   /\ Step("tmo.set")
   /\ IF Cur.dir = "outbound"
      THEN /\ lastCall \in DOMAIN calls /\ calls[lastCall].outT = -2
+          \* the caller's deadline runs from the instant the RPC is issued: the timeout layer is the
+          \* outermost one, whatever the application's own outbound middleware does afterwards
+          /\ Cur.t = calls[lastCall].t0
           /\ LET c == calls[lastCall]
                  want == Chosen(Def(c.from, "outDef"), HdrVal(c))
              IN /\ Has(Cur, "chosen_us") = (want # NoT)
